@@ -237,6 +237,15 @@ def _run_history(hist, rec):
                 db.remove(cond)
                 rows = [r for r in rows if not r['x1'] > 2.25]
                 created_after_remove = False       # (kept for the record: the model object now predates the removal)
+            elif op == 'scale':
+                # Database.scale_column on a column the model reads, possibly while a model object is alive
+                db.scale_column('x1', 0.5)
+                for r in rows:
+                    r['x1'] = r['x1'] * 0.5
+            elif op == 'addcol':
+                # a new column computed from the table (Database.add_column); the model does not read it
+                n_extra = sum(1 for o in hist[:step] if o == 'addcol')
+                db.add_column(R.Builder(spec).build(('*', ('var', 'x1'), ('num', 2.0))), f'extra{n_extra}')
             elif b is None:
                 rec.count('history_steps_not_applicable')
                 return
@@ -317,6 +326,15 @@ def history_list(tier):
             if sum(1 for o in h if o == 'new_big') > 1 or sum(1 for o in h if o == 'boot') > 1 or sum(1 for o in h if o == 'remove') > 1:
                 continue
             if 'new_big' in h and tier == 'quick' and len(h) > 3 and not set(h[1:]) <= {'ll', 'sim'}:
+                continue
+            out.append(list(h))
+    # the table is edited through the Database interface (scale a column, add a column, remove rows) between the uses of a
+    # model object: depth 2..4 (quick) / 5 (thorough) over that sub-alphabet, at least one edit
+    for n in range(2, (4 if tier == 'quick' else 5) + 1):
+        for h in itertools.product(['new', 'scale', 'addcol', 'remove', 'll', 'sim'], repeat=n):
+            if h[0] not in ('new', 'scale', 'addcol') or h[-1] not in ('ll', 'sim') or 'new' not in h:
+                continue
+            if not ({'scale', 'addcol'} & set(h)) or h.count('remove') > 1 or h.count('new') > 2:
                 continue
             out.append(list(h))
     if tier == 'quick':
